@@ -6,8 +6,13 @@ open Pko.Kube Pko.Model.Phase Pko.Drv.PhaseCommon
 /-- flavours the namespace rule of the property speaks about -/
 def nsBound (fl : String) : Bool := fl == "objectset" || fl == "samecluster-phase"
 
+/-- the REST mapper cannot answer for the object's kind in this pass (transient lookup error):
+whether its API exists and what its scope is cannot be established -/
+def mapFault (s : Scn) (p : PObj) : Bool := (s.mapErr.getD []).contains p.kind
+
 /-- the property's list, written from its sentence -/
 def passesPreflight (s : Scn) (ow : Owner) (p : PObj) : Bool :=
+  !mapFault s p &&                         -- the checks could be evaluated at all
   scopeOf p.kind != .unknown &&            -- its API exists
   !p.presetOwnerRef &&                     -- it carries no ownerReferences of its own
   p.dryRun == .accept &&                   -- a server-side dry run accepts it
@@ -29,9 +34,11 @@ def monitor (s : Scn) (out : String) : String := Id.run do
   if s.mode == "reconcile" then
     if objs.any (fun p => !passesPreflight s ow p) then
       if !io.events.isEmpty then return s!"bad write-despite-preflight-violation {io.events.headD ""}"
-      -- a plain error is only acceptable when the dry run itself failed for an unlisted reason
+      -- a plain error is only acceptable when the dry run itself failed for an unlisted reason, or
+      -- when the REST mapper could not answer (the check could not be evaluated: retried)
       let dryRunErrored := objs.any (fun p => p.dryRun == .error && scopeOf p.kind != .unknown)
-      if io.outcome != "preflight" && !(io.outcome == "err" && dryRunErrored) then
+      let mapperErrored := objs.any (mapFault s)
+      if io.outcome != "preflight" && !(io.outcome == "err" && (dryRunErrored || mapperErrored)) then
         return s!"bad preflight-violation-not-reported outcome={io.outcome}"
     else if io.outcome == "preflight" then return "bad spurious-preflight-error"
   return "ok"
